@@ -21,7 +21,7 @@ neutral|neutral-wire)
     if [ -n "$ONLY" ] && ! echo " $ONLY " | grep -q " $id "; then continue; fi
     git -C "$REPO" apply "$HERE/$d/patch.diff" || { echo "$id: patch does not apply"; bad=1; continue; }
     n=0; ok=0
-    for p in C01 C02 C06 C07 C08 C09 C10 C11 C12 C13 C14 C15 C17 C18 C20; do
+    for p in ${CHECKS:-C01 C02 C06 C07 C08 C09 C10 C11 C12 C13 C14 C15 C17 C18 C20}; do
       if [ $what = neutral-wire ]; then export VERIF_ONLY_ENGINE=wire-sim; fi
       res=$(VERIF_SECOND_PASS=${VERIF_SECOND_PASS:-0} ./check "$p" quick 2>&1); code=$?
       n=$((n+1)); [ $code = 0 ] && ok=$((ok+1))
